@@ -53,5 +53,5 @@ fn main() {
     if args.len() >= 5 && args[1] == "--child" {
         nfs::child_main(&args[2..]);
     }
-    main_entry(Engine { name: "vtime_mc", level, rule, run, replay, assumptions });
+    main_entry(Engine { name: "vtime_mc", level, rule, run, replay, assumptions, decode_breadcrumb: None });
 }
